@@ -168,6 +168,34 @@ func runC20(e *core.Env, n int) {
 			run.ReleaseAll()
 			return
 		}
+		if release == "recv" {
+			// backpressure means waiting, not failing: once the receiver goes on, every send has succeeded and
+			// every message has arrived
+			sWho, rWho := "h", "cr"
+			if toServer {
+				sWho, rWho = "cs", "h"
+			}
+			failed, arrived := 0, 0
+			var firstErr error
+			for _, ev := range run.Rets(sWho, "send") {
+				if ev.Err != nil || ev.Pan != "" {
+					failed++
+					if firstErr == nil {
+						firstErr = ev.Err
+					}
+				}
+			}
+			for _, ev := range run.Rets(rWho, "recv") {
+				if ev.Msg != nil {
+					arrived++
+				}
+			}
+			if failed > 0 {
+				e.Violate("backpressure/"+dir+"/send-failed-instead-of-waiting", fmt.Sprintf("%d of %d sends failed (%v) although the receiver only paused after %d receives and then received everything offered", failed, nsend, firstErr, k), w)
+			} else if arrived != nsend {
+				e.Violate("backpressure/"+dir+"/not-all-delivered", fmt.Sprintf("%d sends succeeded but %d messages arrived after the receiver went on", nsend, arrived), w)
+			}
+		}
 		run.leadMu.Lock()
 		lead := append([]string(nil), run.Lead...)
 		run.leadMu.Unlock()
